@@ -581,6 +581,11 @@ class Executor:
         """Value of a promoted constant (its MIR body is executed)."""
         name = re.sub(r"::<[^>]*>", "", text.strip())
         fn = self.funcs.get("const " + name)
+        segs = name.split("::")
+        while fn is None and len(segs) > 2:
+            # the use site spells the full module path, the definition only the path inside its module
+            segs = segs[1:]
+            fn = self.funcs.get("const " + "::".join(segs))
         if fn is None:
             return None
         if name in self._promoted_cache:
@@ -999,6 +1004,15 @@ class Executor:
                 if enum in self.enums and last in self.enums[enum]:
                     return [(st, VAgg(path, last, list(args)))]  # tuple-variant constructor used as a function
                 target = self.resolve(path)
+                # a summary (std contract or one installed by the spec) takes precedence, as for a direct call
+                from summaries import summarize
+
+                class _F:
+                    name = target.name if target is not None else path
+                r = summarize(self, st, _F, "fn-item", path, list(args), None)
+                if r is not None:
+                    self.stats.summaries.add(normalize_callee(path))
+                    return r
                 if target is not None:
                     self.stats.inlined.add(target.name)
                     amap = {idx: v for (idx, ty), v in zip(target.args, args)}
